@@ -190,6 +190,40 @@ impl Prop for P {
                     Ok(())
                 })?;
                 vensure!(r.status == TINFLStatus::Done, "c16:decoder-run", "status {}", status_name(r.status));
+                // the same value through the C shim's getter, on a decompressor object from the shim's allocator
+                if ring.is_none() && plain.len() <= 200_000 {
+                    let total = plain.len() + 1;
+                    let mut out = vec![0u8; total];
+                    // SAFETY: alloc/init/free as documented; pointers into live buffers of the stated sizes
+                    unsafe {
+                        let dp = capi::tinfl_decompressor_alloc();
+                        capi::tinfl_init(dp);
+                        let (mut ipos, mut opos, mut ci, mut n) = (0usize, 0usize, 0usize, 0usize);
+                        loop {
+                            let take = if ci < sched.chunks.len() { (sched.chunks[ci] as usize).min(s.len() - ipos) } else { s.len() - ipos };
+                            ci += 1;
+                            let fl = flags | TINFL_FLAG_USING_NON_WRAPPING_OUTPUT_BUF | if ipos + take < s.len() { TINFL_FLAG_HAS_MORE_INPUT } else { 0 };
+                            let (mut isz, mut osz) = (take, total - opos);
+                            let st = miniz_oxide_c_api::tinfl_decompress(dp, s[ipos..].as_ptr(), &mut isz, out.as_mut_ptr(), out.as_mut_ptr().add(opos), &mut osz, fl);
+                            ipos += isz;
+                            opos += osz;
+                            n += 1;
+                            let got = capi::tinfl_get_adler32(dp) as u32;
+                            let want = adler32_ref(1, &out[..opos]);
+                            // 0 until the header has been read
+                            if !(got == want || (got == 0 && opos == 0)) {
+                                capi::tinfl_decompressor_free(dp);
+                                return Err(Violation::new("c16:tinfl_get_adler32", format!("after tinfl_decompress call #{n} ({opos} bytes produced, status {st}) tinfl_get_adler32 = {got:#010x}, Adler-32 of the output so far = {want:#010x}")));
+                            }
+                            if st != 1 || n > s.len() + 16 {
+                                break;
+                            }
+                        }
+                        capi::tinfl_decompressor_free(dp);
+                        cx.evals(n as u64);
+                    }
+                    cx.class("dec-running:tinfl_get_adler32");
+                }
                 cx.evals(r.calls);
                 if r.calls >= 2 {
                     cx.nontrivial();
